@@ -18,7 +18,7 @@ Definition kout_eqb (a b : kout) : bool :=
 Definition sout_eqb (a b : sout) : bool :=
   match a, b with
   | SToken, SToken | SAlready, SAlready => true
-  | SClosed x, SClosed y => Bool.eqb x y
+  | SClosed x, SClosed y | SLive x, SLive y => Bool.eqb x y
   | _, _ => false
   end.
 Definition rout_eqb (a b : rout) : bool :=
